@@ -299,6 +299,28 @@ func randShared(r *rec.Rand, timed bool) *caseSpec {
 	nOps := r.Range(4, 40)
 	handles := 0
 	longRun := -1
+	mode2 := false
+	if !timed && r.Chance(1, 4) {
+		// one request's context is cancelled in the middle of the batch it is fetching
+		n := rec.Pick(r, []int{3, 8, 40, 99, 100, 101, 180})
+		s := make([]int, n)
+		for j := range s {
+			s[j] = 2 * r.Range(1, 9)
+		}
+		if r.Chance(1, 4) {
+			s = append(s, 2*10+1, 2*3)
+		}
+		c.In[0] = s
+		c.P = 1000
+		c.Trig = []int{0, r.Intn(n - 1)}
+		k := rec.Pick(r, keys)
+		c.SOps = append(c.SOps, []int{0, k, 0}, []int{1 + r.Intn(2), 0, 2}, []int{0, k, 0})
+		handles = 2
+		for i := r.Intn(n + 3); i > 0; i-- {
+			c.SOps = append(c.SOps, []int{1, 1, 0})
+		}
+		mode2 = true
+	}
 	for i := 0; i < nOps; i++ {
 		switch {
 		case handles == 0 || r.Chance(1, 6):
@@ -319,6 +341,8 @@ func randShared(r *rec.Rand, timed bool) *caseSpec {
 			canc := 0
 			if r.Chance(1, 20) {
 				canc = 1
+			} else if mode2 && r.Chance(1, 6) {
+				canc = 2
 			}
 			op := 1
 			if r.Chance(1, 3) {
@@ -610,7 +634,11 @@ func random(w *rec.Writer, r *rec.Rand, n int, tier string) {
 			p := r.Intn(n + 1)
 			s = append(s[:p], append([]int{2*10 + 1}, s[p:]...)...)
 		}
-		emit(w, &caseSpec{Kind: "sharedfree", In: [][]int{s}, P: r.Range(2, 12), Q: r.Intn(3)*16 + r.Intn(3), Timed: r.Chance(1, 4), Seed: r.Uint64()})
+		fc := &caseSpec{Kind: "sharedfree", In: [][]int{s}, P: r.Range(2, 12), Q: r.Intn(3)*16 + r.Intn(3), Timed: r.Chance(1, 4), Seed: r.Uint64()}
+		if n >= 5 && !hasErr(s[:n/2]) && r.Chance(1, 3) {
+			fc.Trig = []int{r.Intn(n / 2), r.Intn(2)}
+		}
+		emit(w, fc)
 	}
 }
 
